@@ -116,7 +116,7 @@ def gen_config(rng):
     cfg['cli'] = cli
     return cfg
 
-DIRNAMES = ['data', 'data', 'site#1', 'q?mode', '100%', 'a%20b', '\u00fcn\u00ef', "it's", 'a&b', 'file:x', 'x+y', '[b]*', '$HOME', 'back\\slash']
+DIRNAMES = ['data', 'data', 'data-\udcff', 'na\udcefve', 'site#1', 'q?mode', '100%', 'a%20b', '\u00fcn\u00ef', "it's", 'a&b', 'file:x', 'x+y', '[b]*', '$HOME', 'back\\slash']
 DBFILE = 'taskchampion-sync-server.sqlite3'
 
 def dircheck(work, datadir):
@@ -538,7 +538,7 @@ def main(out_path, seed, first, n, mode='config'):
     binp = BIN
     if not os.path.exists(binp):
         build_binary()
-    with open(out_path, 'w') as out:
+    with open(out_path, 'w', errors='backslashreplace') as out:       # directory names need not be UTF-8
         for hi in range(first, first + n):
             rng = random.Random(seed * 1000003 + hi)
             {'broken': run_broken, 'crashbin': run_crashbin, 'malformed': run_malformed}.get(mode, run_config)(out, binp, rng, hi)
